@@ -1,6 +1,6 @@
 (* C07 — imports are confined by local configuration: criteria map, exclude, importable. *)
-Require Import Base Extracted Criteria Search AuditGraph Update Imports.
-Require Import CriteriaProofs ImportsProofs.
+Require Import Base Extracted Criteria Search AuditGraph DepGraph Resolve Update Imports.
+Require Import CriteriaProofs ImportsProofs ResolveProofs ResolveTheorems RecordSets.
 Local Open Scope N_scope.
 
 (* An imported entry contributes to local criterion x exactly when some criterion f
@@ -49,6 +49,19 @@ Theorem C07_freshness_marking_keeps_entries : forall existing news,
   map (fun a => (au_kind a, au_crit a, au_importable a)) news.
 Proof. exact freshen_keeps_content. Qed.
 
+(* ... and at the level of the verdict: serving all imported entries of every crate as one merged peer list
+   (what a multi-URL import does with its sources) gives the same verdict as one list per source;
+   more generally an entry that is skipped (unparseable, unknown criteria) changes the verdict only through
+   its own absence: the verdict is a function of the set of records that remain *)
+Theorem C07_multi_url_verdict_is_that_of_the_union :
+  forall inp s, has_errors (resolve inp (regroup_store s)) = has_errors (resolve inp s).
+Proof. exact regrouping_keeps_verdict. Qed.
+Theorem C07_verdict_is_a_function_of_the_remaining_records :
+  forall inp s1 s2, st_criteria s2 = st_criteria s1 ->
+    (forall name, same_records (store_for s1 name) (store_for s2 name)) ->
+    has_errors (resolve inp s2) = has_errors (resolve inp s1).
+Proof. exact verdict_same_records. Qed.
+
 (* non-vacuity: peer table [x => safe-to-deploy]; local table has one custom
    criterion 2; criteria-map {x -> [2], safe-to-deploy -> []}: an entry for [x]
    means peer {x, deploy, run}; locally it denotes {2} ∪ {} ∪ {run} *)
@@ -64,3 +77,5 @@ Print Assumptions C07_exclude_wildcard_audits.
 Print Assumptions C07_imported_entries_come_from_the_peer.
 Print Assumptions C07_multi_url_is_union.
 Print Assumptions C07_freshness_marking_keeps_entries.
+Print Assumptions C07_multi_url_verdict_is_that_of_the_union.
+Print Assumptions C07_verdict_is_a_function_of_the_remaining_records.
